@@ -238,8 +238,14 @@ def _run_part(chk, prop):
     chk.cov["l1info_store"] = cov
     rc, out = vlib.coq_make(PART_TARGETS, timeout=1500)
     if rc != 0:
+        # a theorem / source-fact obligation of the L1 info store no longer builds: record it, but keep going - the case files only
+        # need the model (Model/L1InfoCases.vo), and a concrete failing input is worth more than the broken obligation
         chk.obligation_broken("make %s failed:\n%s" % (" ".join(PART_TARGETS), out[-2500:]), theorem="theories/Properties/C11.v")
-        return
+        cov["store_theorems_build"] = False
+        rc, out = vlib.coq_make(["theories/Model/L1InfoCases.vo"], timeout=1500)
+        if rc != 0:
+            chk.obligation_broken("make theories/Model/L1InfoCases.vo failed:\n%s" % out[-2500:], theorem="theories/Model/L1InfoCases.v")
+            return
     rc, out, exe = vlib.build_harness("l1info")
     if rc != 0:
         chk.obligation_broken("harness l1info does not build against the current source (tag verif):\n" + out[-3000:],
